@@ -9,6 +9,7 @@ import (
 	"github.com/taurusgroup/multi-party-sig/internal/round"
 	"github.com/taurusgroup/multi-party-sig/pkg/ecdsa"
 	"github.com/taurusgroup/multi-party-sig/pkg/math/curve"
+	"github.com/taurusgroup/multi-party-sig/pkg/math/polynomial"
 	"github.com/taurusgroup/multi-party-sig/pkg/party"
 	"github.com/taurusgroup/multi-party-sig/pkg/protocol"
 	"github.com/taurusgroup/multi-party-sig/protocols/cmp"
@@ -23,7 +24,8 @@ import (
 var CheatRules = []string{"delta", "gamma", "x-chi", "chi"}
 
 type cheat struct {
-	rule string
+	rule    string
+	observe func(next round.Session) // sees every round the cheater enters (nil: none)
 }
 
 func typeName(s interface{}) string {
@@ -133,6 +135,9 @@ func (p *proxy) Finalize(out chan<- *round.Message) (round.Session, error) {
 	close(tmp)
 	if next != nil && err == nil {
 		p.c.after(next)
+		if p.c.observe != nil {
+			p.c.observe(next)
+		}
 	}
 	for m := range tmp {
 		if next != nil {
@@ -212,4 +217,33 @@ func FrostDealerCheat(s *Session, cheater party.ID, delta int, sid []byte, mk fu
 			return r, nil
 		}
 	}, sid)
+}
+
+// PolySpy holds the secret polynomial of a FROST dealer once it has been sampled.
+type PolySpy struct{ F *polynomial.Polynomial }
+
+// FrostDealerSpy makes the secret polynomial of `cheater` visible to the scenario (the cheater itself behaves
+// honestly; the scenario alters what it sends using that secret - a share for another evaluation point).
+func FrostDealerSpy(s *Session, cheater party.ID, sid []byte, mk func() protocol.StartFunc) *PolySpy {
+	spy := &PolySpy{}
+	c := &cheat{observe: func(next round.Session) {
+		f := field(next, "f_i")
+		if !f.IsValid() || !f.CanAddr() {
+			return
+		}
+		if p, ok := reflect.NewAt(f.Type(), unsafe.Pointer(f.UnsafeAddr())).Elem().Interface().(*polynomial.Polynomial); ok && p != nil {
+			spy.F = p
+		}
+	}}
+	s.Makers[cheater] = multi(func() protocol.StartFunc {
+		inner := mk()
+		return func(sessionID []byte) (round.Session, error) {
+			r, err := inner(sessionID)
+			if err != nil {
+				return nil, err
+			}
+			return wrap(r, c), nil
+		}
+	}, sid)
+	return spy
 }
